@@ -106,7 +106,11 @@ class C07(Prop):
             if case["model"] == "excitation":
                 pred = Ap @ x + bp
                 t = float(np.max(np.abs(b / (1 + b) - pred / (1 + pred))))
-                delta = 1e-3
+                # accuracy: 3e-3 in excitation units (default SCS bisection: <= 5e-4 in 150 calibration cases, one outlier of 2.0e-3 in about 400), plus what clipping the returned point into the box cost (the bound tolerance of the
+                # default solver, at most 1 % of the range, is granted separately; its effect on the objective must not be counted twice)
+                praw = Ap @ np.asarray(out["X"], dtype=float) + bp
+                traw = float(np.max(np.abs(b / (1 + b) - praw / (1 + praw)))) if np.all(1 + praw > 0) else t
+                delta = 3e-3 + max(0.0, t - traw)
                 p["t"] = t; p["delta"] = delta
                 lam = []
                 if t > delta:
@@ -182,7 +186,7 @@ class C07(Prop):
                     hi = s
                 else:
                     lo = s
-            if t > hi + 2e-3:
+            if t > hi + p.get("delta", 3e-3) + 1e-6:
                 return {"what": "largest excitation difference %.6g, but an in-bound intensity vector achieves %.6g" % (t, hi), "class": "excitation-suboptimal:" + cfg}
         return None
 
